@@ -93,7 +93,7 @@ static std::string field(const std::vector<std::string> &t, const std::string &p
     return "";
 }
 
-static std::string runGraph(size_t n, const std::vector<uintptr_t> &place, const std::string &es, const std::string &qs)
+static std::string runGraph(size_t n, const std::vector<uintptr_t> &place, const std::string &es, const std::string &qs, const std::string &outside = "")
 {
     std::vector<std::pair<size_t, size_t>> edges, queries;
     if (!parsePairs(es, edges) || !parsePairs(qs, queries)) return "bad-line";
@@ -120,6 +120,23 @@ static std::string runGraph(size_t n, const std::vector<uintptr_t> &place, const
         if (e.first >= n || e.second >= n) return "bad-line";
         Variable::addEquivalence(vs[e.first], vs[e.second]);
     }
+    // variables that leave the model once the equivalences are made (their equivalences and the caller's pointers stay):
+    // alternately removed from their component and moved into a component of another model
+    auto otherModel = Model::create("other");
+    auto otherComp = Component::create("oc");
+    otherModel->addComponent(otherComp);
+    {
+        std::stringstream ss(outside);
+        std::string item;
+        size_t k = 0;
+        while (std::getline(ss, item, ',')) {
+            if (item.empty()) continue;
+            size_t i = size_t(atol(item.c_str()));
+            if (i >= n) return "bad-line";
+            if (k++ % 2 == 0) comp->removeVariable(vs[i]);
+            else otherComp->addVariable(vs[i]);
+        }
+    }
     auto am = AnalyserModel::AnalyserModelImpl::create(model);
     std::string h, c;
     for (auto &q : queries) {
@@ -144,7 +161,8 @@ int main()
         } else if (t.size() >= 2 && t[0] == "G") {
             size_t n = size_t(atol(t[1].c_str()));
             std::string es = field(t, "E:"), qs = field(t, "Q:");
-            std::string r = hx::forked([&]() { return runGraph(n, {}, es, qs); });
+            std::string os = field(t, "O:");
+            std::string r = hx::forked([&]() { return runGraph(n, {}, es, qs, os); });
             printf("%s\n", r.c_str());
         } else if (t.size() >= 2 && t[0] == "P") {
             std::vector<uintptr_t> place;
